@@ -1233,8 +1233,10 @@ def rule_default(g, r, fin):
 
 
 CHECKS = {
-    "C06": dict(corpus=lambda t, s, r: corpus_schedule(t, s, r) + corpus_rerun(t, s, r) + corpus_resume_schedule(t, s, r), e1=[e1_tempering], extra=apalache_inductive),
-    "C07": dict(corpus=lambda t, s, r: corpus_schedule(t, s, r) + corpus_rerun(t, s, r), e1=[e1_tempering]),
+    "C06": dict(corpus=lambda t, s, r: corpus_schedule(t, s, r) + corpus_rerun(t, s, r) + corpus_resume_schedule(t, s, r), e1=[e1_tempering],
+                extra=lambda v, t, s: dict(apalache_inductive(v, t, s) or {}, **__import__("e3_controller").replay(v, t, s, "C06"))),
+    "C07": dict(corpus=lambda t, s, r: corpus_schedule(t, s, r) + corpus_rerun(t, s, r), e1=[e1_tempering],
+                extra=lambda v, t, s: __import__("e3_controller").replay(v, t, s, "C07")),
     "C08": dict(corpus=lambda t, s, r: corpus_general(t, s, r, 200 if t == "quick" else 3000)
                 + [dict(x, id="v" + x["id"]) for x in corpus_variants(t, s, r)]
                 + [dict(x, id="r" + x["id"]) for x in corpus_resume(t, s, r)][: (120 if t == "quick" else 3000)]
